@@ -10,9 +10,9 @@
      stand-in for expat.  The two [_partial] theorems are about it, NOT about
      expat; that expat agrees with it is checked by execution only (suite XML).
 
-   [_partial] also marks C07_css_parse_partial: parse_css_spec on rendered spec
-   lists is proved for the token space written in the statement (lists of at
-   most three specs), by evaluation.
+   C07_css_parse / C07_css_parse_errors are proved through the regex ENGINE on the
+   generated ASTs of the two CSS expressions, for declaration lists of any length
+   and any layout (no bound).
    [_refuted]: the property's grammar "character references to anything but & and <"
    is too generous — see C07_charref_grammar_refuted. *)
 From Coq Require Import NArith ZArith List Bool Arith String Ascii.
@@ -20,7 +20,7 @@ From CL Require Import Base.Sx Base.Res Base.Str Regex.Rx Generated.RxC07 Genera
   Model.CSS Model.XmlContent Model.CheckDTD
   Proofs.CheckDTDProofs Proofs.CheckDTDSpec Proofs.CheckDTDTheorems Proofs.CSSProofs
   Proofs.XmlRejectProofs Proofs.XmlAcceptProofs Proofs.XmlValueProofs Proofs.C07Final
-  Proofs.CheckDTDTotal.
+  Proofs.CheckDTDTotal Proofs.CssRxSpec Proofs.CssFinditer Proofs.CssParseTheorem Proofs.CssJunk.
 Import ListNotations.
 Local Open Scope list_scope.
 
@@ -93,15 +93,35 @@ Theorem C07_css_verdict : forall rv lv rm e1 lmo errs,
    (~ agree rm lm -> exists msg, maybe_style rv lv = Ok [var_issue y_css_warn (PInt 0) msg])).
 Proof. exact maybe_style_verdict. Qed.
 
-(* parse_css_spec of a rendered spec list is the list's map, without errors — for every list
-   of [bounded_spec_lists] (all single specs over 4 properties x 4 numbers x 10 units, all
-   pairs over 4 x 2 x 10, all triples over 4 x 1 x 2) in every layout of [layouts] (blanks
-   around the colon, three separators, with and without a trailing separator).
-   PARTIAL: the bound; longer lists are reached by execution only. *)
-Theorem C07_css_parse_partial : forall l colon sep trailing,
-  In l bounded_spec_lists -> In (colon, sep, trailing) layouts ->
-  parse_css_spec (render_specs colon sep trailing l) = Ok (Some (spec_map l), None).
-Proof. exact parse_rendered_bounded. Qed.
+(* ---- parse_css_spec, for every declaration list and every layout --------------------------------------
+   A declaration is  prop blanks : blanks number unit  where prop / unit are ANY word of the
+   property / unit group of the generated expression ([css_props] / [css_units]: the finite
+   languages read off the AST, pinned to the expected lists by C07_example_css_grammar), blanks
+   are arbitrary runs of the checker's white-space class, a number is digits or
+   digits* . digits+ .  An item is a gap followed by a declaration; a gap is
+   blanks [; blanks].  For EVERY list of items in which every declaration but the first is
+   preceded by a semicolon, and every trailing text that is empty or blanks ; blanks:
+   parse_css_spec of the rendering is the dict of the list (refMap[prop] = unit in order: a
+   repeated property keeps its first place and takes the later unit) and no errors. *)
+Theorem C07_css_parse : forall items tr,
+  forallb item_ok items = true -> layout_ok items = true -> tr_ok tr = true ->
+  parse_css_spec (render_items items (render_tr tr)) = Ok (Some (decl_map (map it_decl items)), None).
+Proof. exact css_parse. Qed.
+
+(* The converse: ANY text of characters that cannot start a declaration ([inert]: decided on
+   the generated expression; every character but the first letters of the property names)
+   before, between and after valid declarations.  parse_css_spec returns the dict of the
+   declarations and EXACTLY these errors, in order: css-bad-content at the start offset of
+   every non-empty gap that is not blanks [; blanks] — before the first declaration too —
+   and css-missing-semicolon at every non-empty all-blank gap after a declaration
+   (the trailing text included).  Hence errors <> None iff some gap is bad. *)
+Theorem C07_css_parse_errors : forall items tr,
+  items <> [] -> forallb jitem_ok items = true -> forallb inert tr = true ->
+  parse_css_spec (render_jitems items tr) =
+    Ok (Some (decl_map (map j_decl items)), errs_after 0 items tr None) /\
+  nonempty (errs_after 0 items tr None) = any_bad false items tr /\
+  (any_bad false items tr = false -> errs_after 0 items tr None = None).
+Proof. exact css_parse_junk. Qed.
 
 (* ---- the value grammar is accepted (XmlContent) ---------------------------------------------------------------
    tokens: text without < & >, references to declared or predefined names other than the
@@ -212,8 +232,37 @@ Example C07_example_css :
   maybe_style (s "width: 20em; height:3ch") (s "height:5ch;width:30em;") = Ok [] /\
   maybe_style (s "width: 20em") (s "width:30px") =
     Ok [var_issue y_css_warn (PInt 0) (s "units for width don't match (px != em)")] /\
-  maybe_style (s "width: 20em") (s "wide") = Ok [lit_issue y_css_spec (PInt 0)] /\
-  List.length bounded_spec_lists = 160 + 6400 + 512 /\ List.length layouts = 12.
+  maybe_style (s "width: 20em") (s "wide") = Ok [lit_issue y_css_spec (PInt 0)].
+Proof. vm_compute. repeat split; reflexivity. Qed.
+
+(* the grammar of C07_css_parse is the source's: the words of the two groups, read off the
+   generated expression, are the expected lists; a concrete item list satisfies the premises *)
+Definition ex_items : list item :=
+  [mkitem (s " ", None) (mkdecl (s "min-width") (s " ") (s "	") (NDec (s "") (s "5")) (s "rem"));
+   mkitem (s "", Some (s " ")) (mkdecl (s "height") [] [] (NInt (s "280")) (s "px"));
+   mkitem (s " ", Some [10%N]) (mkdecl (s "min-width") [] (s " ") (NDec (s "2") (s "50")) (s "ch"))].
+
+Example C07_example_css_grammar :
+  css_props = [s "min-width"; s "min-height"; s "max-width"; s "max-height"; s "width"; s "height"] /\
+  css_units = [s "ch"; s "em"; s "ex"; s "rem"; s "px"; s "cm"; s "mm"; s "in"; s "pc"; s "pt"] /\
+  forallb item_ok ex_items = true /\ layout_ok ex_items = true /\ tr_ok (Some (s " ", s "")) = true /\
+  render_items ex_items (render_tr (Some (s " ", s ""))) =
+    s " min-width :	.5rem; height:280px ;
+min-width: 2.50ch ;" /\
+  decl_map (map it_decl ex_items) = [(s "min-width", s "ch"); (s "height", s "px")].
+Proof. vm_compute. repeat split; reflexivity. Qed.
+
+Definition ex_jitems : list jitem :=
+  [mkjitem (s "junk ") (mkdecl (s "width") [] (s " ") (NInt (s "20")) (s "ch"));
+   mkjitem (s " ") (mkdecl (s "height") [] (s " ") (NInt (s "280")) (s "px"))].
+
+Example C07_example_css_errors :
+  forallb jitem_ok ex_jitems = true /\ forallb inert (s " ") = true /\
+  render_jitems ex_jitems (s " ") = s "junk width: 20ch height: 280px " /\
+  errs_after 0 ex_jitems (s " ") None =
+    Some [(0, CssBadContent); (15, CssMissingSemicolon); (30, CssMissingSemicolon)] /\
+  any_bad false ex_jitems (s " ") = true /\
+  inert 119 = false /\ inert 106 = true.
 Proof. vm_compute. repeat split; reflexivity. Qed.
 
 (* junk or a broken declaration before the first declaration, between two, after the last:
